@@ -322,3 +322,109 @@ def fam_c17(R, n):
         src = '\n'.join(attrs + ['pub enum T%d {' % i] + ['    ' + v for v in vs] + ['}'])
         out.append(dict(family='c17', src=src, meta={}))
     return out
+
+
+# ---------------------------------------------------------------------------------------------
+# C19: malformed stream.  expect: 'reject' (must produce compile_error, optionally of a class),
+# 'accept' (must be accepted and compile), 'any' (only: must not panic)
+# ---------------------------------------------------------------------------------------------
+def fam_c19(R, n_random):
+    E = []
+
+    def add(src, expect, cls=None, note=''):
+        E.append(dict(family='c19', src=src, meta=dict(expect=expect, cls=cls, note=note)))
+    H = HDR
+    # variant shapes
+    add(enum([], ['#[token("a")] A(),']), 'reject', 'variant_shape', 'empty tuple variant')
+    add(enum([], ['#[token("a")] A(u8, u8),']), 'reject', 'variant_shape')
+    add(enum([], ['#[token("a")] A { x: u8 },']), 'reject', 'variant_shape')
+    add(enum([], ['#[token("a", |_| 1u8)] A(u8),']), 'accept')
+    add(enum([], ['A(),', '#[token("b")] B,']), 'any', None, 'empty tuple variant without attribute')
+    add(enum([], ['A { },', '#[token("b")] B,']), 'any')
+    add(enum([], ['#[regex("a")] #[token("b")] A(u8, u16, u32),']), 'reject', 'variant_shape')
+    # malformed attributes
+    for a in ['#[token]', '#[token()]', '#[token(3)]', '#[token(foo)]', '#[token("a" "b")]', '#[token("a", )]', '#[token("a",,)]', '#[token(,"a")]',
+              '#[regex("(")]', '#[regex("a", "b")]', '#[regex("a", foo, bar)]', '#[regex = "a"]', '#[regex("[")]', '#[regex("a{2,1}")]',
+              '#[token("a", priority = x)]', '#[token("a", priority = -1)]', '#[token("a", priority = 99999999999999999999999)]',
+              '#[token("a", callback = )]', '#[token("a", callback = |a, b| 1)]', '#[token("a", |lex|)]', '#[token("a", ||)]',
+              '#[token("a", ignore())]', '#[token("a", ignore(case, ))]', '#[token("a", ignore(case case))]', '#[token("a", ignore(ascii_case))]',
+              '#[token("a", ignore(wat))]', '#[token("a", ignore = case)]', '#[token("a", allow_greedy = maybe)]', '#[token(b"a\\xff")]',
+              '#[token(\'a\')]', '#[token(1.5)]', '#[token(r#"a"#)]', '#[token(br"a")]', '#[error]', '#[token("a")] #[error]']:
+        add(enum([], ['%s A,' % a]), 'any', None, 'malformed attribute')
+    # duplicated callbacks (Span::join on stable)
+    add(enum([], ['#[regex("a", foo, callback = bar)] A,']), 'reject', None, 'positional and named callback')
+    add(enum([], ['#[regex("a", callback = foo, callback = bar)] A,']), 'reject', None, 'callback twice')
+    add(enum(['#[logos(error(E, callback = a, callback = b))]'], ['#[token("a")] A,']), 'reject', None, 'error callback twice')
+    add(enum(['#[logos(error(E, foo, callback = b))]'], ['#[token("a")] A,']), 'reject', None, 'error callback twice (positional)')
+    add(enum(['#[logos(skip("a", foo, callback = bar))]'], ['#[token("b")] B,']), 'reject', None, 'skip callback twice')
+    # #[logos(...)] shapes
+    for a in ['#[logos]', '#[logos = 3]', '#[logos()]', '#[logos(,)]', '#[logos(extras = A, extras = B)]', '#[logos(utf8 = maybe)]', '#[logos(utf8 = true, utf8 = false)]',
+              '#[logos(skip)]', '#[logos(skip = "a")]', '#[logos(skip 3)]', '#[logos(subpattern = "a")]', '#[logos(subpattern x)]', '#[logos(subpattern x = 3)]',
+              '#[logos(subpattern x = "a", subpattern x = "b")]', '#[logos(type T = u8)]', '#[logos(type T)]', '#[logos(lifetime = \'a, lifetime = \'b)]',
+              '#[logos(error = A, error = B)]', '#[logos(error())]', '#[logos(error(A B))]', '#[logos(error(A, 3))]', '#[logos(crate)]', '#[logos(crate = )]',
+              '#[logos(source = str)]', '#[logos(export_dir = 3)]', '#[logos(wat)]', '#[logos("x")]', '#[logos(skip("a", priority = ))]', '#[logos(skip(3))]',
+              '#[logos(subpattern a-b = "x")]', '#[logos(subpattern x = "(")]', '#[logos(subpattern x = "(?&x)")]', '#[logos(extras)]', '#[logos(utf8)]']:
+        add(enum([a], ['#[token("a")] A,']), 'any', None, 'malformed logos attribute')
+    # generics
+    add(H + '\npub enum T<const N: usize> { #[token("a")] A, }', 'reject')
+    add(H + '\npub enum T<\'a, \'b> { #[regex("a")] A(&\'a str), #[regex("b")] B(&\'b str), }', 'any')
+    add(H + '\npub enum T<X> { #[regex("a", |_| todo!())] A(X), }', 'any')
+    add(H + '\npub enum T { }', 'any', None, 'no variants')
+    add(H + '\n#[logos(skip "a")]\npub enum T { }', 'any', None, 'only skips')
+    # patterns that cannot be implemented
+    for p in ['a*', '(a|)', '', 'a?', '(a*)*', 'a{0,3}', '(?:)', 'b*|a']:
+        add(enum([], ['#[regex(%s)] A,' % rust_str(p)]), 'reject', 'empty', 'nullable')
+    add(enum(['#[logos(skip "a*")]'], ['#[token("b")] B,']), 'reject', 'empty')
+    add(enum([], ['#[token("")] A,']), 'reject', 'empty')
+    for p in ['(?-u:\\b)a', '^a', '(?m:^)a', '(?-u:\\B)a', '\\ba', 'a|^b', '$', '(?-u:\\b)', 'a*$']:
+        add(enum([], ['#[regex(%s)] A,' % rust_str(p)]), 'reject', None, 'look-behind at token start')
+    for p in ['(?=a)b', 'a(?!b)', '(a)\\1', '(?<=a)b', '\\p{Nope}', '(?P<n>a)(?P=n)']:
+        add(enum([], ['#[regex(%s)] A,' % rust_str(p)]), 'reject', None, 'unsupported regex feature')
+    add(enum([], ['#[regex("a{1001}{1001}{1001}")] A,']), 'reject', None, 'huge repetition (resource exhaustion)')
+    for p in ['(?&nope)', 'a(?&b)']:
+        add(enum([], ['#[regex(%s)] A,' % rust_str(p)]), 'reject', 'undef_subpattern')
+    # greedy dots at every depth
+    for p in ['.*a', 'a.*', 'a.+', '(a.*)b', 'a(.*b)?', '((.+))', 'x(?:y(?:z.*))', '(a|b.*)c', '(?s:.)*', 'a[^\\n]*', 'x(a(b(c.+)))?', '(.*)+a', 'a(?:.*b){2}', '(?-u:.)*a', '(?s-u:.)+', '(.)*x', '((.))+x', '(?:(.)*y)+']:
+        add(enum([], ['#[regex(%s)] A,' % rust_str(p)]), 'reject', 'greedy')
+        add(enum([], ['#[regex(%s, allow_greedy = true)] A,' % rust_str(p)]), 'noreject-greedy')
+    add(enum(['#[logos(skip(".*x"))]'], ['#[token("b")] B,']), 'reject', 'greedy')
+    add(enum(['#[logos(skip(".*x", allow_greedy = true))]'], ['#[token("b")] B,']), 'noreject-greedy')
+    for p in ['.*?a', 'a.{0,5}', 'a.?', '(.{2,3})+a', '[^a]+']:
+        add(enum([], ['#[regex(%s)] A,' % rust_str(p)]), 'accept', None, 'bounded / lazy / not a dot')
+    # non UTF-8 in str mode
+    for v in ['#[regex("(?-u:\\\\xff)")] A,', '#[token(b"\\xff")] A,', '#[regex("(?-u:.)")] A,', '#[regex(b"\\xc3")] A,']:
+        add(enum([], [v]), 'reject', 'nonutf8')
+    add(enum(['#[logos(subpattern s = b"\\xff")]'], ['#[regex("a(?&s)")] A,']), 'reject', 'nonutf8')
+    add(enum(['#[logos(utf8 = false)]'], ['#[regex("(?-u:\\\\xff)")] A,']), 'accept')
+    # random mutations inside the attribute argument lists of a valid source (the enum stays an enum)
+    argsets = [['"a"', 'priority = 3'], ['"[0-9]+"', '|lex| lex.slice().len()'], ['"x|y"', 'callback = cbk', 'ignore(case)'],
+               ['"q+"', 'priority = 2', 'callback = cbk', 'allow_greedy = true']]
+    logos_items = ['skip " +"', 'extras = u32', 'skip("t", priority = 4)', 'subpattern d = "[0-9]"', 'error = E']
+    ins = [',', '=', 'priority', 'callback', '"z"', '3', '|', 'ignore', 'skip', '()', '(case)', 'true', 'x y', '= =', 'b"q"', "'c'"]
+    for i in range(n_random):
+        def mut(parts):
+            parts = list(parts)
+            for _ in range(R.choice([1, 1, 2])):
+                op = R.choice(['del', 'dup', 'swap', 'ins', 'split'])
+                if not parts:
+                    break
+                j = R.randrange(len(parts))
+                if op == 'del':
+                    parts.pop(j)
+                elif op == 'dup':
+                    parts.insert(j, parts[j])
+                elif op == 'swap' and j + 1 < len(parts):
+                    parts[j], parts[j + 1] = parts[j + 1], parts[j]
+                elif op == 'ins':
+                    parts.insert(j, R.choice(ins))
+                else:
+                    parts[j] = parts[j].replace(' = ', ' ', 1) if ' = ' in parts[j] else parts[j] + ' ' + R.choice(ins)
+            return ', '.join(parts)
+        vs = []
+        for k, a in enumerate(argsets):
+            body = mut(a) if R.random() < 0.5 else ', '.join(a)
+            kind = 'regex' if k else 'token'
+            vs.append('#[%s(%s)] V%d%s,' % (kind, body, k, '(usize)' if k == 1 else ''))
+        la = mut(logos_items) if R.random() < 0.6 else ', '.join(logos_items)
+        add(enum(['#[logos(%s)]' % la], vs), 'any', None, 'argument-level mutation')
+    return E
